@@ -94,6 +94,9 @@ def eval_case(case) -> Outcome:
         shapes.append("duplicate-names")
     if any(isinstance(s["t_supply"], dict) for s in case["streams"]):
         shapes.append("value-with-unit")
+    spell = {isinstance(x.get(k), dict) for x in case["streams"] + case.get("utilities", []) for k in ("t_supply", "t_target")}
+    if len(spell) == 2:
+        shapes.append("mixed-spellings")
     if case.get("zone_tree"):
         shapes.append("explicit-zone-tree")
     out.labels.update(shapes)
@@ -205,7 +208,26 @@ def wide_problem(draw, tier, hp=False):
     if draw(st.integers(0, 3)) == 0:
         for s in case["streams"]:
             s["dt_cont"] = 0.0
-    if draw(st.integers(0, 3)) == 0:  # numbers as value-with-unit objects
+    mode = draw(st.integers(0, 5))
+    if mode == 1:
+        # mixed spellings: every number independently a bare float or a value-with-unit object, unit strings vary
+        def maybe(v, units):
+            k = draw(st.integers(0, 2))
+            return v if k == 0 or v is None else {"value": v, "units": units[k - 1]}
+
+        for s in case["streams"]:
+            s["t_supply"] = maybe(s["t_supply"], ["degC", "C"])
+            s["t_target"] = maybe(s["t_target"], ["degC", "C"])
+            s["heat_flow"] = maybe(s["heat_flow"], ["kW", "kJ/s"])
+            s["dt_cont"] = maybe(s["dt_cont"], ["degC", "K"])
+            s["htc"] = maybe(s["htc"], ["kW/m2/K", "kW/m^2/degC"])
+        for u in case["utilities"]:
+            u["t_supply"] = maybe(u["t_supply"], ["degC", "C"])
+            u["t_target"] = maybe(u["t_target"], ["degC", "C"])
+            u["dt_cont"] = maybe(u["dt_cont"], ["degC", "K"])
+            u["htc"] = maybe(u["htc"], ["kW/m2/K", "kW/m^2/degC"])
+            u["price"] = maybe(u["price"], ["$/MWh", "EUR/MWh"])
+    if mode == 0:  # numbers as value-with-unit objects
         for s in case["streams"]:
             s["t_supply"] = vu("degC")(s["t_supply"])
             s["t_target"] = vu("degC")(s["t_target"])
@@ -260,4 +282,4 @@ PARTS = [
     Part("service", eval_case, {"quick": 1200, "thorough": 40000}, strategy=strategy, min_nontrivial={"quick": 500, "thorough": 15000}),
     Part("heat_pump_options", eval_case, {"quick": 8, "thorough": 160}, strategy=strategy_hp, min_nontrivial={"quick": 2, "thorough": 40}),
 ]
-MIN_SHARE = {"service": {"single-stream": 0.03, "only-hot": 0.05, "only-cold": 0.05, "isothermal": 0.1, "zero-contributions": 0.1, "duplicate-names": 0.2, "value-with-unit": 0.1, "explicit-zone-tree": 0.03}}
+MIN_SHARE = {"service": {"single-stream": 0.03, "only-hot": 0.05, "only-cold": 0.05, "isothermal": 0.1, "zero-contributions": 0.1, "duplicate-names": 0.2, "value-with-unit": 0.1, "mixed-spellings": 0.08, "explicit-zone-tree": 0.03}}
